@@ -19,6 +19,15 @@ pub fn check_words(words: &[u32], st: &mut Stats, decoded: &dyn Fn() -> String) 
         st.count("skipped_not_grammatical");
         return Ok(());
     }
+    if rp.redefined_id {
+        // an id declared twice: which declaration decides a literal's width is left open (C10); the
+        // stream is in this check's domain only if it is grammatical under both readings (FA21)
+        let first = with_first_wins(|| ref_parse(&bytes));
+        if first.end != End::Clean {
+            st.count("skipped_grammatical_under_one_reading_only");
+            return Ok(());
+        }
+    }
     let names: Vec<&str> = rp.insts.iter().map(|i| i.opname.as_str()).collect();
     let r2 = r2_load(&names);
     let got = load_words(words).map_err(wrap)?;
